@@ -84,7 +84,7 @@ def report_frames(chk: Check, rows: list[dict], res: dict, stats: dict) -> None:
                 fdrift.setdefault(f"{row['ctor']}: {pattern}", [0, f"{row['text']!r} -> {row.get('out', row.get('exc'))!r}"])[0] += 1
                 continue
             site = "from_cli" if pattern == "payload_cut_at_48_chars" else row["ctor"]
-            key = f"C02{clause}:{site}:{pattern}"
+            key = f"C02{clause}:{site}:{pattern}" + (f":{row['why']}" if row.get("why") else "")
             per_key[key] = per_key.get(key, 0) + 1
             chk.violation(key, f"{row['ctor']}({row['text']!r}) -> {row.get('out') or row.get('exc')!r}; expected "
                                f"{X.frame_text(row['f'])!r} [{pattern}]",
